@@ -562,6 +562,17 @@ def _nat(l):
     return ",".join(str(int(x)) for x in l) or "-"
 
 
+def _src(expr):
+    """the PartitionsFiltered source node of a freshly built collection (readers are wrapped in
+    ArrowStringConversion)"""
+    from dask_expr._expr import PartitionsFiltered
+
+    for x in expr.walk():
+        if isinstance(x, PartitionsFiltered):
+            return x
+    return expr
+
+
 def _frame_with_divs(full):
     """from_map source with the user divisions `full` (len(full) - 1 partitions)"""
     import dask_expr as dx
@@ -569,7 +580,7 @@ def _frame_with_divs(full):
     n = len(full) - 1
     pdf = pd.DataFrame({"x": np.arange(max(n, 1), dtype="int64")})
     parts = [pdf.iloc[i : i + 1] for i in range(n)]
-    return dx.from_map(e2e._PartGetter(parts), list(range(n)), meta=pdf.iloc[:0], divisions=tuple(full)).expr
+    return _src(dx.from_map(e2e._PartGetter(parts), list(range(n)), meta=pdf.iloc[:0], divisions=tuple(full)).expr)
 
 
 def _index_sets(n, maxlen=3, extra_rng=None):
@@ -661,7 +672,9 @@ def _canon_task(t):
         return ("fn", getattr(t, "__qualname__", None) or getattr(t, "__name__", None) or type(t).__name__)
     if isinstance(t, (int, float, str, bool, type(None), np.integer, np.floating, pd.Timestamp)):
         return repr(t)
-    return ("obj", type(t).__name__)
+    from dask.base import tokenize
+
+    return ("obj", type(t).__name__, tokenize(t))
 
 
 def _source_exprs(n):
@@ -682,7 +695,7 @@ def _source_exprs(n):
 
     out.append(("Timeseries", timeseries(start="2000-01-01", end=str(pd.Timestamp("2000-01-01") + pd.Timedelta(days=n))[:10],
                                          freq="12h", partition_freq="1d", dtypes={"a": int, "b": float}, seed=3).expr))
-    return out
+    return [(nm, _src(e)) for nm, e in out]
 
 
 def _fm_kw(i, k=1):
@@ -701,9 +714,9 @@ def _file_exprs(n):
         for i in range(n):
             pdf.iloc[2 * i : 2 * i + 2].to_csv(os.path.join(d, "csv", f"p{i}.csv"), index=False)
         dx.from_pandas(pdf, npartitions=n).to_parquet(os.path.join(d, "pq"))
-    return [("ReadCSV", dx.read_csv(os.path.join(d, "csv", "p*.csv")).expr),
-            ("ReadParquetFSSpec", dx.read_parquet(os.path.join(d, "pq")).expr),
-            ("ReadParquetPyarrowFS", dx.read_parquet(os.path.join(d, "pq"), filesystem="arrow").expr)]
+    return [("ReadCSV", _src(dx.read_csv(os.path.join(d, "csv", "p*.csv")).expr)),
+            ("ReadParquetFSSpec", _src(dx.read_parquet(os.path.join(d, "pq")).expr)),
+            ("ReadParquetPyarrowFS", _src(dx.read_parquet(os.path.join(d, "pq"), filesystem="arrow").expr))]
 
 
 def fam_filtered_contract(ctx):
@@ -1104,8 +1117,8 @@ def fam_push_rules(ctx):
             inputs.append({"expr": nm, "rule": "Tail._simplify_down"})
             nontriv.append(True)
         if isinstance(E, Blockwise):
-            P = [E.npartitions - 1, 0]
             try:
+                P = [E.npartitions - 1, 0]
                 r = Partitions(E, P)._simplify_down()
                 ents = []
                 for op, o0 in zip(r.operands, E.operands):
@@ -1118,6 +1131,8 @@ def fam_push_rules(ctx):
                 txt = ",".join(ents)
             except Exception as ex:  # noqa: BLE001
                 txt = _err(ex)
+            if txt == "ERR AssertionError":
+                continue  # the expression itself has no divisions (known finding D28: single-partition scalar-first binop)
             reqs.append(f"pt push ndim={E.ndim} any={b01(isinstance(E, MapPartitions))} ops={opsd}")
             code.append(txt)
             inputs.append({"expr": nm, "rule": "Partitions._simplify_down"})
@@ -1162,11 +1177,11 @@ def fam_bjoin_keys(ctx):
         e0 = bjs[0]
         for P in [None] + _index_sets(4, 2)[1:]:
             e = e0 if P is None else e0.substitute_parameters({"_partitions": P})
-            keys = [k[1] for k in e._layer() if k[0] == e._name]
+            keys = sorted({k[1] for k in e._layer() if k[0] == e._name})
             reqs.append(f"pt bjoinkeys P={_nat(P if P is not None else range(4))}")
             code.append(_nat(keys))
             inputs.append({"how": how, "P": P})
-    model = drive(reqs)
+    model = [_nat(sorted(set(int(x) for x in m.split(",")))) if m and m[0].isdigit() else m for m in drive(reqs)]
     f.compare(inputs, code, model)
     f.note = "the model transliterates the code as it is: keys are numbered by ORIGINAL partition (see C11_bjoin_keys_counterexample)"
     return f
